@@ -22,10 +22,14 @@ package types
 //@ keyfns GroupStoreKey DKGContextStoreKey MemberStoreKey Round1InfoCountStoreKey Round1InfoStoreKey
 //@   AccumulatedCommitStoreKey Round2InfoStoreKey Round2InfoCountStoreKey ConfirmStoreKey
 //@   ComplainsWithStatusStoreKey ConfirmComplainCountStoreKey DEStoreKey DEQueueStoreKey SigningStoreKey
-//@   PartialSignatureCountStoreKey PartialSignatureStoreKey SigningAttemptStoreKey MembersStoreKey ConfirmsStoreKey
+//@   PartialSignatureCountStoreKey PartialSignatureStoreKey SigningAttemptStoreKey MembersStoreKey ConfirmsStoreKey PartialSignaturesStoreKey
 // layout fact (trusted, key-layout): ConfirmStoreKey(g, m) = ConfirmsStoreKey(g) || be64(m), and nothing else is stored
 // under that prefix - a key below a group's confirm prefix is a confirm record of that group
 //@ axiom confirmPrefix: forall q Bz, g Int :: hasprefix(q, ConfirmsStoreKey(g)) ==> iskey(ConfirmStoreKey, q) && keyarg(ConfirmStoreKey, q, 0) == g
+
+// layout fact (trusted, key-layout): PartialSignatureStoreKey(id, n, m) = PartialSignaturesStoreKey(id, n) || be64(m), and nothing
+// else is stored under that prefix - a key below an attempt's partial-signature prefix is a partial-signature record
+//@ axiom partialSigPrefix: forall q Bz, id Int, n Int :: hasprefix(q, PartialSignaturesStoreKey(id, n)) ==> iskey(PartialSignatureStoreKey, q)
 
 //@ func (k RollingseedKeeper) GetRollingSeed
 //@ trusted
